@@ -735,12 +735,12 @@ func addKeyDeriver(t *target, r *hlib.Rng, p *prims, lens []int) error {
 // ---------------------------------------------------------------- dispatch
 
 // buildTarget runs the sequential oracle for whatever primitives mk produces.
-func buildTarget(seed uint64, id, class string, cost int, big bool, mk maker) (*target, error) {
+func buildTarget(seed uint64, id, class string, cost int, big bool, mk maker, extra func(t *target, r *hlib.Rng, p *prims) error) (*target, error) {
 	p, err := mk()
 	if err != nil {
 		return nil, err
 	}
-	if p.empty() {
+	if p.empty() && extra == nil {
 		return nil, errors.New("no primitive")
 	}
 	t := &target{id: id, class: class, cost: cost}
@@ -771,9 +771,16 @@ func buildTarget(seed uint64, id, class string, cost int, big bool, mk maker) (*
 			}
 		}
 	}
-	t.fresh = func() {
-		if q, err := mk(); err == nil && !q.empty() {
-			*p = *q
+	if extra != nil {
+		if err := extra(t, r, p); err != nil {
+			return nil, err
+		}
+	}
+	if !p.empty() {
+		t.fresh = func() {
+			if q, err := mk(); err == nil && !q.empty() {
+				*p = *q
+			}
 		}
 	}
 	return t, nil
